@@ -1,4 +1,4 @@
-(* d_frontmatter.ml — C20: front-matter splitter model, line-based spec, known-deviation classes *)
+(* d_frontmatter.ml — C20: front-matter splitter model, line-based spec, the classes of the repaired defects *)
 open Dcore
 
 let pr_pair_opt = function
@@ -19,6 +19,7 @@ let () =
   register "fm_class" (fun a -> pr_n (M.fm_class (arg a 1) (arg a 0)));
   register "delim_ok" (fun a -> pr_bool (M.delim_ok (arg a 0)));
   register "count_lf" (fun a -> "ok " ^ string_of_int (int_of_nat (M.count_lf (arg a 0))));
+  register "count_line_endings" (fun a -> "ok " ^ string_of_int (int_of_nat (M.count_line_endings (arg a 0))));
   register "lf_count" (fun a -> pr_n (M.lf_count (arg a 0)));
   register "spec_line_count" (fun a -> pr_n (M.spec_line_count (arg a 0)));
   register "rest_has_bom" (fun a -> pr_bool (M.rest_has_bom (arg a 0)))
